@@ -1,2 +1,3 @@
 pub mod alloc;
 pub mod c29;
+pub mod ser;
